@@ -55,6 +55,9 @@ type Spec struct {
 	// MemLimitMB bounds the heap of one worker (default 6144): exceeding it is
 	// reported as a violation attributed to the current case (W.Begin).
 	MemLimitMB int
+	// LogCurrent makes W.Begin write the case to a file before it runs, so
+	// that a fatal error of the worker process can be attributed to it.
+	LogCurrent bool
 	// MaxStack, if non-zero, is passed to debug.SetMaxStack in workers.
 	MaxStack int
 	// Exhaustive is reported in evidence when the body says the whole finite
@@ -248,6 +251,9 @@ func (w *W) Begin(sig, desc string, d time.Duration) func() {
 	w.mu.Lock()
 	w.curSig, w.curDesc = sig, desc
 	w.mu.Unlock()
+	if w.Spec.LogCurrent {
+		w.Current(sig + "\n" + desc)
+	}
 	if d == 0 {
 		return func() {}
 	}
@@ -647,7 +653,10 @@ func supervise(spec *Spec, tier string) {
 				addV(Violation{Sig: "hang:" + crashSig(tail), What: fmt.Sprintf("worker %d made no progress within %v (goroutine dump in replay)", i, wall),
 					Replay: map[string]interface{}{"current_case": string(cur), "output_tail": tail}, Count: 1})
 			default:
-				addV(Violation{Sig: "crash:" + crashSig(tail), What: "worker process died: " + firstFatalLine(tail),
+				if i := strings.IndexByte(string(cur), '\n'); i > 0 {
+					tail = "current case: " + string(cur[:i]) + "\n" + tail
+				}
+				addV(Violation{Sig: "crash:" + crashSig(tail) + curSigOf(cur), What: "worker process died: " + firstFatalLine(tail) + " (current case: " + oneLine(string(cur)) + ")",
 					Replay: map[string]interface{}{"current_case": string(cur), "output_tail": tail, "exit": fmt.Sprint(st.err)}, Count: 1})
 			}
 		}
@@ -839,6 +848,13 @@ func crashSig(out string) string {
 		}
 	}
 	return first + "@" + frame
+}
+
+func curSigOf(cur []byte) string {
+	if i := strings.IndexByte(string(cur), '\n'); i > 0 {
+		return "@" + string(cur[:i])
+	}
+	return ""
 }
 
 func replayDir(id string) string {
